@@ -286,7 +286,7 @@ func main() {
 	// watchdog of the harness covers) is reported with the goroutine dump as the replay, instead of
 	// sitting there until ./check's outer timeout.  The limit is far above any observed run time
 	// (quick tiers finish in seconds, the longest thorough tier in about three minutes).
-	limit := 900 * time.Second
+	limit := 300 * time.Second
 	if thorough() {
 		limit = 2400 * time.Second
 	}
